@@ -35,7 +35,8 @@ Definition ex_flow : list wact :=
    WCli pB ARecvStart; WCli pB (ARecvIter 0%nat); WCli pB ALoop; RReq pB; RLoop pA; WDeliver pA;
    WCli pA (ASendIter 0%nat)].
 Example c21_ack_nonvacuous :
-  In (pA, OSendDone 0%nat true (sign_msg 0 [7] 1) (Some 2)) (snd (wrun w_init ex_flow)) /  In (pB, ORecvDone 0%nat (Some (sign_msg 0 [7] 1)) (Some 2)) (snd (wrun w_init ex_flow)).
+  In (pA, OSendDone 0%nat true (sign_msg 0 [7] 1) (Some 2)) (snd (wrun w_init ex_flow)) /\
+  In (pB, ORecvDone 0%nat (Some (sign_msg 0 [7] 1)) (Some 2)) (snd (wrun w_init ex_flow)).
 Proof. vm_compute. split; tauto. Qed.
 
 (* ... and the back-pressure history of the stale-ack defect (A's write loop at
@@ -50,7 +51,9 @@ Definition ex_stale : list wact :=
    RLoop pA; WDeliver pA; WDeliver pA; WCli pA (ASendIter 0%nat); WCli pA ALoop].
 Example c21_stale_ack_regression :
   let r := wrun w_init ex_stale in
-  (forall i m e, ~ In (pA, OSendDone i true m e) (snd r)) /  t_open (tk (s_cl (w_a (fst r)))) = Some 4 /\ t_acked (tk (s_cl (w_a (fst r)))) = false /  In (pA, OReq (RSend 4 (sign_msg 0 [7] 1))) (snd r).
+  (forall i m e, ~ In (pA, OSendDone i true m e) (snd r)) /\
+  t_open (tk (s_cl (w_a (fst r)))) = Some 4 /\ t_acked (tk (s_cl (w_a (fst r)))) = false /\
+  In (pA, OReq (RSend 4 (sign_msg 0 [7] 1))) (snd r).
 Proof.
   vm_compute. split; [|split; [reflexivity|split; [reflexivity|tauto]]].
   intros i m e H. repeat (destruct H as [H|H]; [discriminate|]). exact H.
